@@ -37,7 +37,8 @@ def main():
         props = meta['property'] if isinstance(meta['property'], list) else [meta['property']]
         wt = '/tmp/wt_seed_%s' % sid.replace('-', '_')
         sh('git -C /repo worktree remove --force %s' % wt)
-        r = sh('git -C /repo worktree add -q %s HEAD && git -C %s apply %s/patch.diff' % (wt, wt, d))
+        r = sh('git -C /repo worktree add -q --detach %s %s && git -C %s apply %s/patch.diff' % (
+            wt, os.environ.get('SEEDED_BASE', 'HEAD'), wt, d))
         if r.returncode:
             rows.append((sid, props, 'PATCH DOES NOT APPLY', '', ''))
             print(r.stdout)
